@@ -77,7 +77,10 @@ def gen_cases(rng, tier, count=None):
                 algo = "DOO_delta"
             part = None
             if algo == "Zooming":
-                part = str(rng.choice([p for p in C.PART_NAMES if p not in EXACT_PARTS]))
+                # not K2 / K4: there np.linspace's middle boundary and the cell centre (lo+hi)/2 are different
+                # expressions and an ulp decides which child keeps the arm; Bin / DimBin compute both the same way
+                part = str(rng.choice(["Bin", "DimBin"])) if rng.random() < 0.5 else str(rng.choice(
+                    [p for p in C.PART_NAMES if p not in EXACT_PARTS]))
             c = TW.safe_case(rng, algo, tier, part=part, dim=dim)
             box = []
             for _ in range(dim):
